@@ -10,6 +10,7 @@ Baron's unofficial draft (https://dbaron.org/css/intrinsic/).
 
 import sys
 from functools import cache
+from itertools import islice
 from math import inf
 
 from ..formatting_structure import boxes
@@ -285,18 +286,30 @@ def inline_line_widths(context, box, outer, is_line_start, minimum, skip_stack=N
             continue  # Skip
 
         if isinstance(child, boxes.InlineBox):
+            resumed = skip_stack is not None
             lines = inline_line_widths(
                 context, child, outer, is_line_start, minimum, skip_stack,
                 first_line)
             if first_line:
-                lines = [next(lines)]
+                # Keep the first line, and a second one when the child goes on
+                # after the first line: the first line only holds the start
+                # spacing of a child that starts on it and the end spacing of
+                # a child that ends on it.
+                lines = list(islice(lines, 2))
+                clone = child.style['box_decoration_break'] == 'clone'
+                start = clone or not resumed
+                end = clone or len(lines) == 1
+                if child.style['direction'] == 'rtl':
+                    start, end = end, start
+                lines[0] = adjust(
+                    child, outer, lines[0], left=start, right=end)
             else:
                 lines = list(lines)
-            if len(lines) == 1:
-                lines[0] = adjust(child, outer, lines[0])
-            else:
-                lines[0] = adjust(child, outer, lines[0], right=False)
-                lines[-1] = adjust(child, outer, lines[-1], left=False)
+                if len(lines) == 1:
+                    lines[0] = adjust(child, outer, lines[0])
+                else:
+                    lines[0] = adjust(child, outer, lines[0], right=False)
+                    lines[-1] = adjust(child, outer, lines[-1], left=False)
         elif isinstance(child, boxes.TextBox):
             space_collapse = child.style['white_space'] in (
                 'normal', 'nowrap', 'pre-line')
@@ -309,24 +322,32 @@ def inline_line_widths(context, box, outer, is_line_start, minimum, skip_stack=N
             child_text = child.text.encode()[(skip or 0):]
             if is_line_start and space_collapse:
                 child_text = child_text.lstrip(b' ')
+            # TODO: use the real next character instead of 'a' to detect line breaks.
+            can_break = can_break_text(
+                child_text.decode()[-1:] + 'a', child.style['lang'])
+            if first_line and space_collapse and text_wrap and can_break:
+                # The line can end after this text, its collapsible trailing
+                # spaces are removed then.
+                line_text = child_text.rstrip(b' ')
+            else:
+                line_text = child_text
             max_width = 0 if minimum else None
             lines = []
             resume_index = new_resume_index = 0
             while new_resume_index is not None:
                 resume_index += new_resume_index
                 _, _, new_resume_index, width, _, _ = split_first_line(
-                    child_text[resume_index:].decode(), child.style, context, max_width,
+                    line_text[resume_index:].decode(), child.style, context, max_width,
                     child.justification_spacing, is_line_start=is_line_start,
                     minimum=True)
                 lines.append(width)
                 if first_line:
                     break
             if first_line and new_resume_index:
-                current_line += lines[0]
-                break
-            # TODO: use the real next character instead of 'a' to detect line breaks.
-            can_break = can_break_text(
-                child_text.decode()[-1:] + 'a', child.style['lang'])
+                # The first line ends inside this text, the box goes on
+                yield current_line + lines[0] + text_indent
+                yield 0
+                return
             if minimum and text_wrap and can_break:
                 lines.append(0)
         else:
@@ -346,6 +367,10 @@ def inline_line_widths(context, box, outer, is_line_start, minimum, skip_stack=N
         if len(lines) > 1:
             # Forced line break
             yield current_line + text_indent
+            if first_line:
+                # The box goes on after the first line
+                yield 0
+                return
             text_indent = 0
             if len(lines) > 2:
                 for line in lines[1:-1]:
